@@ -361,6 +361,9 @@ pub fn run_program(
     r.mark(pend);
     if final_flush {
         r.eng.flush_from_main();
+        // what the last cycle held back for one more cycle is decided by the next one
+        r.mark(pend);
+        r.eng.cycle_atomic()?;
     } else {
         r.eng.cycle_atomic()?;
         r.mark(pend);
